@@ -105,6 +105,28 @@ CHECKS = {
          "observed-but-unmodelled failures are violations too, predicted-but-not-reproduced ones are logged.",
          "The Go memory model is not specified in TLA+ (the race detector is the implementation-side recorder); stress durations bound what is reproduced.",
          "go/ast lock-program extraction + TLC (Locks.tla) + stress/-race reproduction on the real code", "DESIGN.md section 4 C20"),
+ "C09": ("exploration",
+         "WireFuzz.tla (on Wire.tla) enumerates, for 22 network-facing schemas taken from a real node, every (field path, deviation class, truncation point) on top of valid messages (28.9 k cases) and an argument-shape model for the verifiers (20.7 k cases: bitmaps, key/signature lengths, "
+         "proof shapes, indices, sizes); each case maps to ok | reject. The harness feeds every case, ~150 k structure-aware mutants, odd-but-decodable blocks and ALL byte strings up to length 3 to 217 entry points (every generated-codec Decode/DecodeStrict, constructors, gossip validators and handlers through the p2p envelope, "
+         "onRequest/onResponse, sync and txpool RPC handlers and response decoders, verifyAggregateCommit, process(), smt/rmt/BLS/ed25519 verifiers) under recover(), a 2 s deadline and an allocation ceiling, in a supervised child process.",
+         "Absence of panics/hangs is established for the enumerated and sampled inputs only; Go memory safety, time and allocation are observed, not modelled; JSON-RPC server and libp2p itself are not fuzzed.",
+         "TLA+-enumerated malformation model + exhaustive short inputs executed against all decoders/verifiers under recover/deadline/allocation monitors", "DESIGN.md section 4 C09"),
+ "C15": ("model_checking",
+         "Generator.tla: Select(pool, limit) as the set of admissible payloads (TLC enumerates all pools of <= 3 transactions x outcomes x limits: 5 484 pools, 35 904 real selections compared); generator behaviours on top of Node.tla (Forge with crash, Recv, Switch to a better possibly shorter chain, Restart) with "
+         "NoSelfContradiction, MhgLargestEver, PersistedBeforeHandoff, ForgeOutputAccepted (56 k states; control runs with the defective shapes must fail); scripts are replayed on a real generator.Generator wired to the real Executer and txpool, generator DB on a strict in-memory FS (crash at hand-off), every produced block processed by the same node, "
+         "all signed headers checked pairwise for contradiction.",
+         "Toy application; 3 validators; crash after hand-off is C13's subject.",
+         "TLC model checking of Generator.tla + replay of TLC scripts on the real generator / Executer / txpool", "DESIGN.md section 4 C15"),
+ "C16": ("model_checking",
+         "StateMachine.tla: application state over 2 stores x 3 keys, command scripts (writes, events, ok/fail), ExecuteTx / Commit (root = SMT.Tree of the state, deleted keys absent) / Revert / Crash+Restart; Atomic, EventsBookkeeping, RootFunctionOfState, RevertInverse checked exhaustively (243 k states quick, 4.9 M thorough); "
+         "~25 k histories replayed on the real framework.ABIHandler + statemachine.Executer with a scripted module using the engine's exact call sequences; events, store contents, state-DB dumps and state roots (SHA-256 fold of the spec term) compared after every step.",
+         "Genesis execution and applications more than one block ahead are not modelled; empty values not generated.",
+         "TLC model checking of StateMachine.tla + replay of TLC histories on the real ABIHandler", "DESIGN.md section 4 C16"),
+ "C17": ("model_checking",
+         "ReqResp.tla with implementation-shape constants (RegisterFirst, DeliverUnderLock, Buffered, TrySend): NoDeadlock, NoLostReply, Correlated, NoLeak, liveness under fairness checked exhaustively for the shape the traces exhibit and the safe shape (181 k states at 2 calls x 1 retry); "
+         "two real MessageProtocols on loopback with schedule-point hooks: random concurrent traffic (latencies around the timeout, cancellations, duplicates) validated by ReqRespTrace.tla, direct assertions (every call returns in time with the payload of its own request, no pending entry left), and forced schedules for the lost-reply and deliver-under-lock interleavings decided from the real outcome.",
+         "Timing uses generous slack; forced schedules that cannot be established are inconclusive; retry count is read-only.",
+         "TLC model checking of ReqResp.tla + trace validation and hook-forced schedules on real loopback hosts", "DESIGN.md section 4 C17"),
 }
 NA_REASON = "check not built yet in this round (planned, see DESIGN.md section 4); not claimed until its TLA+ specification and binding exist"
 
